@@ -688,6 +688,20 @@ class StmtMixin:
             c = self.ops.truthy(self.eval(s.test, body))
             body.assume(c)
             body_states = [body] if c.op != "false" else []
+        measure0 = None
+        if spec.decreases and not is_for and body_states:
+            # termination of a while loop: an integer measure that is non-negative whenever the body is entered and strictly smaller after it
+            from .contracts import Clause
+
+            dcl = spec.decreases if isinstance(spec.decreases, Clause) else Clause(str(spec.decreases), name="decreases")
+            spec.decreases = dcl
+            saved_mode = self.spec_mode
+            self.spec_mode = True
+            try:
+                measure0 = self.ops.term(self.eval(dcl.node, body), INT)
+            finally:
+                self.spec_mode = saved_mode
+            self.oblige(body, smt.Ge(measure0, smt.Int(0)), f"loop{ordinal}/measure-non-negative", "termination", text=f"{dcl.text} >= 0 when the body is entered")
         for b0 in body_states:
             from .symex import Obligation
 
@@ -700,8 +714,14 @@ class StmtMixin:
                     st2.env[kname] = SV(smt.Add(k, smt.Int(1)), INT)
                     for i, inv in enumerate(spec.invariants):
                         self.oblige(st2, self.eval_clause(inv, st2), f"loop{ordinal}/preserve/{inv.name or i}", "inv-preserve", text=inv.text)
-                    if spec.decreases and not is_for:
-                        pass
+                    if measure0 is not None:
+                        saved_mode = self.spec_mode
+                        self.spec_mode = True
+                        try:
+                            measure1 = self.ops.term(self.eval(spec.decreases.node, st2), INT)
+                        finally:
+                            self.spec_mode = saved_mode
+                        self.oblige(st2, smt.Lt(measure1, measure0), f"loop{ordinal}/measure-decreases", "termination", text=f"{spec.decreases.text} strictly decreases")
                 elif flow == Flow.BREAK:
                     out.append((st2, Flow.NORMAL, None))
                 else:
